@@ -520,3 +520,199 @@ def norm_entries(entries):
         else:
             out.add((typ, tuple(bytes(x) for x in data)))
     return out
+
+
+# =============================================================================================
+# Part 3 (C35): git export — from-scratch conversions, tree walks, git-origin histories
+# =============================================================================================
+
+GIT_FILE, GIT_EXEC, GIT_LINK, GIT_DIR = 0o100644, 0o100755, 0o120000, 0o040000
+
+
+def scratch_objects(tree, unusual_modes=None, dummy_file_name=None):
+    """The real from-scratch conversion: `_tree_to_objects` with no parent trees and an
+    empty id map.  Returns ({path: sha} for every blob/tree it yields, root tree sha)."""
+    from breezy.git.cache import DictGitShaMap
+    from breezy.git.object_store import _tree_to_objects
+
+    out = {}
+    for path, obj, _key in _tree_to_objects(tree, [], DictGitShaMap(), unusual_modes or {}, dummy_file_name):
+        out[path] = obj.id
+    if "" not in out:
+        from dulwich.objects import Tree
+
+        out[""] = Tree().id  # an entirely empty revision tree: _revision_to_objects uses Tree()
+    return out, out[""]
+
+
+def independent_objects(tree, unusual_modes=None):
+    """A conversion written from the git object format alone (no breezy.git code): blobs are
+    file texts / symlink targets, modes 100644 / 100755 / 120000 / 40000, directories that
+    hold nothing (transitively) are left out, the root may be empty.
+    Returns ({path: (mode, sha)} without the root, root sha)."""
+    from dulwich.objects import Blob, Tree
+
+    unusual_modes = unusual_modes or {}
+    children = {}
+    entries = {}
+    for path, ie in tree.iter_entries_by_dir():
+        entries[path] = ie
+        if path != "":
+            parent = path.rsplit("/", 1)[0] if "/" in path else ""
+            children.setdefault(parent, []).append(path)
+    out = {}
+
+    def conv(path):
+        ie = entries[path]
+        if ie.kind == "file":
+            b = Blob.from_string(tree.get_file_text(path))
+            return (GIT_EXEC if ie.executable else GIT_FILE), b.id
+        if ie.kind == "symlink":
+            b = Blob.from_string(tree.get_symlink_target(path).encode("utf-8"))
+            return GIT_LINK, b.id
+        if ie.kind == "directory":
+            t = Tree()
+            for c in children.get(path, []):
+                r = conv(c)
+                if r is None:
+                    continue
+                mode, sha = r
+                mode = unusual_modes.get(c, mode)
+                t.add(c.rsplit("/", 1)[-1].encode("utf-8"), mode, sha)
+                out[c] = (mode, sha)
+            if len(t) == 0 and path != "":
+                return None
+            return GIT_DIR, t.id
+        raise AssertionError(ie.kind)
+
+    root = conv("")
+    return out, root[1]
+
+
+def walk_git_tree(store, tree_sha):
+    """{path: (mode, sha)} of everything below a tree in a git object store; raises
+    KeyError(sha) when an entry's object is missing (fsck-like)."""
+    from dulwich.objects import Tree
+
+    out = {}
+
+    def rec(sha, prefix):
+        t = store[sha]
+        if not isinstance(t, Tree):
+            raise KeyError(sha)
+        for name, mode, csha in t.iteritems():
+            p = prefix + name.decode("utf-8")
+            out[p] = (mode, csha)
+            if mode == GIT_DIR:
+                rec(csha, p + "/")
+            elif mode in (GIT_FILE, GIT_EXEC, GIT_LINK) or (mode & 0o170000) == 0o100000:
+                store[csha]  # noqa: B018 - existence
+
+    rec(tree_sha, "")
+    return out
+
+
+def visible_tree(tree):
+    """What must survive a round trip through git: {path: ('file', text, exec) |
+    ('symlink', target) | ('directory',)} without directories that hold nothing."""
+    items = {}
+    for path, ie in tree.iter_entries_by_dir():
+        if path == "":
+            continue
+        if ie.kind == "file":
+            items[path] = ("file", tree.get_file_text(path), bool(ie.executable))
+        elif ie.kind == "symlink":
+            items[path] = ("symlink", tree.get_symlink_target(path))
+        elif ie.kind == "directory":
+            items[path] = ("directory",)
+        else:
+            items[path] = (ie.kind,)
+    keep = set()
+    for p, v in items.items():
+        if v[0] != "directory":
+            keep.add(p)
+            while "/" in p:
+                p = p.rsplit("/", 1)[0]
+                keep.add(p)
+    return {p: v for p, v in items.items() if p in keep}
+
+
+def build_git_history(git, history, unusual=None):
+    """Create `history` (same description as gen_history) directly as git objects in the
+    dulwich repository `git`.  Empty directories do not exist in git; chmod -> 100755;
+    `unusual`: {revid: {path: mode}} extra file modes (e.g. 0o100664).
+    Returns {revid: commit sha} and sets refs/heads/<revid> for every head."""
+    from dulwich.objects import Blob, Commit, Tree
+
+    store = git.object_store
+    files = {}  # revid -> {path: (mode, blob sha)}
+    shas = {}
+    heads = set()
+    for n, r in enumerate(history):
+        cur = dict(files[r["parents"][0]]) if r["parents"] else {}
+        for a in r["actions"]:
+            k = a[0]
+            if k == "file":
+                b = Blob.from_string(CONTENTS[a[3]])
+                store.add_object(b)
+                cur[a[1]] = (GIT_FILE, b.id)
+            elif k == "symlink":
+                b = Blob.from_string(a[3].encode("utf-8"))
+                store.add_object(b)
+                cur[a[1]] = (GIT_LINK, b.id)
+            elif k == "modify":
+                b = Blob.from_string(CONTENTS[a[2]])
+                store.add_object(b)
+                cur[a[1]] = (cur[a[1]][0], b.id)
+            elif k == "retarget":
+                b = Blob.from_string(a[2].encode("utf-8"))
+                store.add_object(b)
+                cur[a[1]] = (GIT_LINK, b.id)
+            elif k == "chmod":
+                cur[a[1]] = (GIT_EXEC if a[2] else GIT_FILE, cur[a[1]][1])
+            elif k == "rename":
+                cur[a[2]] = cur.pop(a[1])
+            elif k == "remove":
+                cur.pop(a[1])
+            elif k == "mkdir":
+                pass
+            else:
+                raise AssertionError(k)
+        for p, m in ((unusual or {}).get(r["revid"]) or {}).items():
+            if p in cur and cur[p][0] in (GIT_FILE, GIT_EXEC):
+                cur[p] = (m, cur[p][1])
+        files[r["revid"]] = cur
+
+        def mktree(prefix):
+            t = Tree()
+            subdirs = set()
+            for p, (mode, sha) in cur.items():
+                if not p.startswith(prefix):
+                    continue
+                rest = p[len(prefix) :]
+                if "/" in rest:
+                    subdirs.add(rest.split("/", 1)[0])
+                else:
+                    t.add(rest.encode("utf-8"), mode, sha)
+            for dname in subdirs:
+                t.add(dname.encode("utf-8"), GIT_DIR, mktree(prefix + dname + "/"))
+            store.add_object(t)
+            return t.id
+
+        c = Commit()
+        c.tree = mktree("")
+        c.parents = [shas[p] for p in r["parents"]]
+        c.author = b"Git Author <author@example.com>"
+        c.committer = b"Git Committer <committer@example.com>"
+        c.author_time = 1_300_000_000 + 1000 * n
+        c.commit_time = 1_300_000_500 + 1000 * n
+        c.author_timezone = 3600 * (n % 3)
+        c.commit_timezone = -3600 * (n % 2)
+        c.message = f"commit {r['revid']}\n".encode()
+        store.add_object(c)
+        shas[r["revid"]] = c.id
+        heads.add(r["revid"])
+        heads.difference_update(r["parents"])
+    for h in sorted(heads):
+        git.refs[b"refs/heads/" + h.encode()] = shas[h]
+    return shas, files
